@@ -9,6 +9,13 @@ IDENTS = ["x", "total", "type", "return", "let", "route", "use", "func", "middle
 CLASS = {"f1": "field", "f2": "field", "pp": "path-param", "v1": "variable", "v2": "variable"}
 
 
+EXTRA_SOURCES = [
+    '@ GET /p {\n  $ dir = "C:\\\\data\\\\"\n  $ msg = "please return the file; we validate it and let you know"\n  $ sym = "> not a return, $ not a let, ? not a validate"\n  > {dir: dir, msg: msg, sym: sym}\n}\n',
+    "@ GET /q {\n  $ a = 'ends with a backslash \\\\'\n  $ b = 'let return validate route'\n  $ c = \"quote \\\" then \\\\\"\n  $ d = \"let return validate\"\n  > [a, b, c, d]\n}\n",
+    '@ GET /r {\n  $ a = "\\\\"\n  if a == "\\\\" {\n    > "return"\n  }\n  > "let"\n}\n',
+]
+
+
 def kw_classes(choices):
     out = []
     for i, h in enumerate(HOLES):
@@ -113,6 +120,9 @@ def run(ck, tier, seed):
             ex.append({"id": len(ex), "text": open(f, encoding="utf-8").read(), "file": os.path.relpath(f, vf.REPO)})
         except UnicodeDecodeError:
             pass
+    # hand-written sources where one literal's ending decides how the following ones are read
+    for t in EXTRA_SOURCES:
+        ex.append({"id": len(ex), "text": t, "file": "(hand-written)"})
     obs = feed(ex)
     for c in ex:
         judge(ck, c, obs[c["id"]], seen, "examples", kw_in_text(c["text"]))
